@@ -137,6 +137,15 @@ struct Input {
     patterns: Vec<Pat>,
     rules: Vec<RuleSpec>,
     items: Vec<(usize, LT)>,
+    /// parallel to `items`: sent to ANOTHER stream (":s2") — only with named_stream; such an item
+    /// must never be seen by the window (the probe does not get it)
+    foreign: Vec<bool>,
+    /// spelling of the stream name in add_to_stream
+    feed_name: &'static str,
+    /// rules given as SPARQL RULE strings (add_sparql_rules) instead of N3 (add_rules)
+    sparql_rules: bool,
+    /// QueryExecutionMode::Standard instead of Volcano (builder and SimpleR2R)
+    standard_exec: bool,
     use_stop: bool,
     /// parse_data for all items before feeding (else interleaved with feeding, as the tests do)
     preparse: bool,
@@ -189,13 +198,32 @@ impl Input {
         let blk = |ps: &[Pat]| ps.iter().map(|p| format!("{} {} {}", t(&p.0), t(&p.1), t(&p.2))).collect::<Vec<_>>().join(" . ");
         self.rules.iter().map(|r| format!("{{ {} }} => {{ {} }}", blk(&r.prem), blk(&r.concl))).collect::<Vec<_>>().join("\n")
     }
+    fn is_foreign(&self, j: usize) -> bool {
+        self.named_stream && self.foreign.get(j).copied().unwrap_or(false)
+    }
+    fn remove_item(&mut self, j: usize) {
+        self.items.remove(j);
+        if j < self.foreign.len() {
+            self.foreign.remove(j);
+        }
+    }
+    fn sparql_rule_texts(&self) -> Vec<String> {
+        let t = |x: &PT| match x {
+            PT::V(n) => format!("?{}", n),
+            PT::C(cst) => term_text(cst),
+        };
+        let blk = |ps: &[Pat]| ps.iter().map(|p| format!("{} {} {} .", t(&p.0), t(&p.1), t(&p.2))).collect::<Vec<_>>().join(" ");
+        self.rules.iter().enumerate().map(|(i, r)| format!("RULE :R{} :-\nCONSTRUCT {{ {} }}\nWHERE {{ {} }} .", i, blk(&r.concl), blk(&r.prem))).collect()
+    }
     fn to_json(&self) -> Value {
         json!({
             "query_rstream": self.query_text(Op::R),
-            "rules_n3": self.rules_text(),
+            "rules": if self.sparql_rules { json!(self.sparql_rule_texts()) } else { json!(self.rules_text()) },
+            "rules_route": if self.rules.is_empty() { "none" } else if self.sparql_rules { "add_sparql_rules" } else { "add_rules (N3)" },
             "rule_kinds": self.rules.iter().map(|r| r.kind).collect::<Vec<_>>(),
-            "items": self.items.iter().map(|(ts, t)| format!("@{} {} {} {}", ts, short(&t.0), short(&t.1), short(&t.2))).collect::<Vec<_>>(),
-            "feed": if self.named_stream { "add_to_stream(\":s1\")" } else { "add" },
+            "items": self.items.iter().enumerate().map(|(j, (ts, t))| format!("@{} {} {} {}{}", ts, short(&t.0), short(&t.1), short(&t.2), if self.is_foreign(j) { "  -> sent to stream :s2" } else { "" })).collect::<Vec<_>>(),
+            "feed": if self.named_stream { format!("add_to_stream(\"{}\")", self.feed_name) } else { "add".to_string() },
+            "query_execution_mode": if self.standard_exec { "Standard" } else { "Volcano" },
             "stop_called": self.use_stop,
             "parse_data_before_feeding": self.preparse,
         })
@@ -401,6 +429,7 @@ fn probe(input: &Input) -> Result<Vec<Firing>, String> {
     let cur = Arc::new(AtomicUsize::new(0));
     let (s2, c2) = (sink.clone(), cur.clone());
     let items = input.items.clone();
+    let foreign: Vec<bool> = (0..items.len()).map(|j| input.is_foreign(j)).collect();
     let use_stop = input.use_stop;
     guard(move || {
         let mut w: WindowRunner<LT> = WindowRunner::new(spec, "probe".to_string());
@@ -408,6 +437,9 @@ fn probe(input: &Input) -> Result<Vec<Firing>, String> {
             s2.lock().unwrap().push(Firing { call: c2.load(Ordering::SeqCst), content: cc.iter().cloned().collect() });
         }));
         for (j, (ts, t)) in items.iter().enumerate() {
+            if foreign[j] {
+                continue;
+            }
             cur.store(j, Ordering::SeqCst);
             w.add_to_window(t.clone(), *ts);
         }
@@ -698,6 +730,7 @@ fn run_engine(input: &Input, op: Op, mode: Mode, sched: Sched, sched_seed: u64, 
         let input = input2;
         let sig = DropSignal(sh.clone());
         let csh = sh.clone();
+        let exec = if input.standard_exec { QueryExecutionMode::Standard } else { QueryExecutionMode::Volcano };
         let consumer = ResultConsumer {
             function: Arc::new(move |r: Vec<(String, String)>| {
                 let _keep = &sig;
@@ -707,10 +740,15 @@ fn run_engine(input: &Input, op: Op, mode: Mode, sched: Sched, sched_seed: u64, 
         let mut b: RSPBuilder<Triple, Vec<(String, String)>> = RSPBuilder::new()
             .add_rsp_ql_query(&query)
             .add_consumer(consumer)
-            .add_r2r(Box::new(SimpleR2R::with_execution_mode(QueryExecutionMode::Volcano)))
+            .add_r2r(Box::new(SimpleR2R::with_execution_mode(exec)))
+            .set_query_execution_mode(exec)
             .set_operation_mode(if mode == Mode::Single { OperationMode::SingleThread } else { OperationMode::MultiThread });
         if !input.rules.is_empty() {
-            b = b.add_rules(&rules);
+            if input.sparql_rules {
+                b = b.add_sparql_rules(input.sparql_rule_texts());
+            } else {
+                b = b.add_rules(&rules);
+            }
         }
         let mut engine: RSPEngine<Triple, Vec<(String, String)>> = b.build()?;
         let pre: Vec<Vec<Triple>> = if input.preparse { input.items.iter().map(|(_, t)| engine.parse_data(&nt_line(t))).collect() } else { vec![] };
@@ -724,8 +762,10 @@ fn run_engine(input: &Input, op: Op, mode: Mode, sched: Sched, sched_seed: u64, 
                 return Err(format!("parse_data returned {} triples for one N-Triples line", ts_items.len()));
             }
             for tr in ts_items {
-                if input.named_stream {
-                    engine.add_to_stream(":s1", tr, *ts);
+                if input.is_foreign(j) {
+                    engine.add_to_stream(":s2", tr, *ts);
+                } else if input.named_stream {
+                    engine.add_to_stream(input.feed_name, tr, *ts);
                 } else {
                     engine.add(tr, *ts);
                 }
@@ -898,6 +938,10 @@ fn rows_total(x: &[Vec<Row>]) -> u64 {
     x.iter().map(|f| f.len() as u64).sum()
 }
 
+/// signatures whose witness was already minimised in this process (the runtime keeps the first
+/// witness per signature only)
+static SHRUNK: Mutex<BTreeSet<String>> = Mutex::new(BTreeSet::new());
+
 /// probe + reference + the three single-thread runs of one input
 struct SingleRuns {
     firings: Vec<Firing>,
@@ -959,8 +1003,9 @@ fn attribute_input(input: &Input, sr: &SingleRuns) -> Vec<(Value, Value)> {
         if let Some(p) = &obs.panic {
             return vec![(json!({"kind": "panic", "mode": "single_thread", "site": panic_site(p)}), json!({"panic": p, "operator": op.name()}))];
         }
-        if let Some(e) = &obs.build_error {
-            return vec![(json!({"kind": "engine_rejects_input_of_the_documented_fragment"}), json!({"error": e, "operator": op.name()}))];
+        if obs.build_error.is_some() {
+            // reported as inconclusive by check_input: the generator left the accepted syntax
+            return vec![];
         }
     }
     let mut or = Oracle::new(input);
@@ -1033,7 +1078,7 @@ fn shrink(input: &Input, sig: &Value, budget: &mut usize) -> Input {
         let mut i = 0;
         while i < best.items.len() {
             let mut cnd = best.clone();
-            cnd.items.remove(i);
+            cnd.remove_item(i);
             if !cnd.items.is_empty() && same(&cnd, budget) {
                 best = cnd;
                 progress = true;
@@ -1130,6 +1175,13 @@ fn check_input(ctx: &mut Ctx, input: &Input, plan: &Plan, sched_rng: &mut Rng, l
         ctx.note("rule_kinds", r.kind);
     }
     ctx.note("rules_per_input", &input.rules.len().to_string());
+    if !input.rules.is_empty() {
+        ctx.count(if input.sparql_rules { "inputs.rules_through_add_sparql_rules" } else { "inputs.rules_through_add_rules_n3" }, 1);
+    }
+    ctx.count(if input.standard_exec { "inputs.query_execution_mode_standard" } else { "inputs.query_execution_mode_volcano" }, 1);
+    ctx.count(if input.named_stream { "inputs.fed_through_add_to_stream" } else { "inputs.fed_through_add" }, 1);
+    ctx.count("items_sent_to_another_stream", (0..input.items.len()).filter(|j| input.is_foreign(*j)).count() as u64);
+    ctx.count("inputs", 1);
     ctx.note("patterns_per_window_bgp", &input.patterns.len().to_string());
     let mut overlap = false;
     let mut evicted = false;
@@ -1184,11 +1236,16 @@ fn check_input(ctx: &mut Ctx, input: &Input, plan: &Plan, sched_rng: &mut Rng, l
         ctx.count(&format!("rows_compared.{}", op.name()), rows_total(&ex.emitted[&op]));
         runs.insert(op, (agrees(&obs, &ex.emitted[&op]), obs));
     }
+    if let Some(e) = runs.values().find_map(|(_, o)| o.build_error.clone()) {
+        out.inconclusive.push(format!("RSPBuilder rejected a generated input ({}): {}", e, ij));
+        return out;
+    }
     let sr = SingleRuns { firings, ex, runs };
     for (sig, mut detail) in attribute_input(input, &sr) {
         detail["input"] = ij.clone();
         detail["mode"] = json!("single_thread");
-        if plan.shrink && sig["kind"] != "panic" {
+        let first_time = SHRUNK.lock().unwrap().insert(sig.to_string());
+        if plan.shrink && first_time && sig["kind"] != "panic" {
             let mut budget = 150usize;
             let small = shrink(input, &sig, &mut budget);
             out.engine_runs += 3 * (150 - budget) as u64;
@@ -1393,12 +1450,20 @@ fn gen_input(r: &mut Rng, thorough: bool) -> Input {
         8 => vec![(v("s"), ty(), c(&pick_cls(r))), (v("s"), ty(), c(&pick_cls(r)))],
         _ => vec![(v("s"), ty(), c(&pick_cls(r))), (v("s"), c(&pick_prop(r)), v("o")), (v("o"), ty(), v("c"))],
     };
+    let named_stream = r.chance(1, 3);
+    let p_foreign = if named_stream && r.coin() { 25 } else { 0 };
+    let foreign: Vec<bool> = (0..items.len()).map(|_| r.chance(p_foreign, 100)).collect();
     Input {
         width,
         slide,
         rep: *r.pick(&[Rep::Default, Rep::Default, Rep::Close, Rep::NonEmpty, Rep::NonEmpty]),
         iso: r.chance(1, 6),
-        named_stream: r.chance(1, 3),
+        named_stream,
+        foreign,
+        feed_name: if r.coin() { ":s1" } else { "s1" },
+        // the SPARQL RULE syntax accepts one CONSTRUCT triple only
+        sparql_rules: r.chance(1, 4) && rules.iter().all(|x| x.concl.len() == 1),
+        standard_exec: r.chance(1, 4),
         a_keyword: r.coin(),
         patterns,
         rules,
@@ -1412,7 +1477,7 @@ fn gen_input(r: &mut Rng, thorough: bool) -> Input {
 // phases
 
 fn scripted_inputs() -> Vec<(&'static str, Input)> {
-    let base = Input { width: 2, slide: Some(1), rep: Rep::Default, iso: false, named_stream: false, a_keyword: true, patterns: vec![], rules: vec![], items: vec![], use_stop: false, preparse: false };
+    let base = Input { width: 2, slide: Some(1), rep: Rep::Default, iso: false, named_stream: false, foreign: vec![], feed_name: ":s1", sparql_rules: false, standard_exec: false, a_keyword: true, patterns: vec![], rules: vec![], items: vec![], use_stop: false, preparse: false };
     let sub = cls(0);
     let sup = cls(1);
     let t = |s: usize, k: &str| (ent(s), RDF_TYPE.to_string(), k.to_string());
@@ -1478,7 +1543,6 @@ fn scripted(ctx: &mut Ctx) {
         let (label, input) = &ins[k as usize];
         let mut sr = ctx.rng_labeled("sched", k);
         let plan = Plan { schedules: ctx.by_tier(8, 40), shrink: true };
-        let before = ctx_violations(ctx);
         let ch = check_input(ctx, input, &plan, &mut sr, label);
         let clean = ch.violations.is_empty();
         ctx.note("scripted_scenarios", &format!("{}: {}", label, if clean { "engine agrees with the reference in every operator, mode and schedule" } else { "DEVIATION (see violations)" }));
@@ -1490,14 +1554,10 @@ fn scripted(ctx: &mut Ctx) {
                 }
             }
         }
-        let _ = before;
         if report(ctx, ch) {
             return;
         }
     }
-}
-fn ctx_violations(_ctx: &Ctx) -> usize {
-    0
 }
 
 /// rule set / pool / query variants of the exhaustive phase
@@ -1518,22 +1578,33 @@ fn exhaustive_variant(i: usize) -> (&'static str, Vec<RuleSpec>, Vec<LT>, Vec<Pa
     }
 }
 
-fn overlap_exhaustive(ctx: &mut Ctx) {
-    let len = ctx.by_tier(3usize, 5usize);
-    // block = (variant 0..4, width 1..=3, slide 1..=2, report strategy 0..2)
-    let blocks = 4 * 3 * 2 * 2;
-    ctx.phase("overlap_exhaustive", blocks as u64);
-    ctx.note("exhaustive_sub_space", &format!("4 rule/pool/query variants x width 1..3 x slide 1..2 x {{ON_WINDOW_CLOSE, NON_EMPTY_CONTENT}} x ALL streams of {} items over a 3-triple pool with gaps in {{0,1,2}} (first item at 1), stop() called, x 3 operators in single-thread mode; every 9th stream also in multi-thread mode under 2 schedules", len));
+/// blocks: (variant 0..4, width 1..=3, slide 1..=2, report strategy) — `subset` keeps the blocks
+/// in which items stay in the window across several firings (subclass / subclass chain,
+/// width 2..3, slide 1)
+fn overlap_exhaustive(ctx: &mut Ctx, name: &str, len: usize, subset: bool, share: f64) {
+    let mut blocks: Vec<(usize, usize, usize, Rep)> = vec![];
+    for rep in [Rep::Close, Rep::NonEmpty] {
+        for slide in 1..=2usize {
+            for width in 1..=3usize {
+                for variant in 0..4usize {
+                    if !subset || ((variant == 0 || variant == 2) && width >= 2 && slide == 1) {
+                        blocks.push((variant, width, slide, rep));
+                    }
+                }
+            }
+        }
+    }
+    ctx.phase(name, blocks.len() as u64);
+    ctx.note("exhaustive_sub_spaces", &format!("{}: {} blocks ({}) x ALL streams of {} items over a 3-triple pool with gaps in {{0,1,2}} (first item at 1), stop() called, x 3 operators in single-thread mode; every 9th stream also in multi-thread mode under 2 schedules per operator", name, blocks.len(), if subset { "rule variants subclass / subclass_chain x width 2..3 x slide 1 x {ON_WINDOW_CLOSE, NON_EMPTY_CONTENT}" } else { "4 rule/pool/query variants x width 1..3 x slide 1..2 x {ON_WINDOW_CLOSE, NON_EMPTY_CONTENT}" }, len));
     while let Some(k) = ctx.next_case() {
-        let k = k as usize;
-        let (variant, width, slide, rep) = (k % 4, 1 + (k / 4) % 3, 1 + (k / 12) % 2, if (k / 24) % 2 == 0 { Rep::Close } else { Rep::NonEmpty });
+        let (variant, width, slide, rep) = blocks[k as usize];
         let (vname, rules, pool, patterns) = exhaustive_variant(variant);
         let n_streams = 3usize.pow(len as u32) * 3usize.pow(len as u32 - 1);
-        let mut sr = ctx.rng_labeled("sched", k as u64);
-        let mut done = 0u64;
+        let mut sr = ctx.rng_labeled("sched", k);
+        let mut done = 0usize;
         for code in 0..n_streams {
-            if !ctx.time_left() {
-                ctx.count("overlap_exhaustive.blocks_cut_short_by_budget", 1);
+            if !ctx.within(share) {
+                ctx.count(&format!("{}.blocks_cut_short_by_budget", name), 1);
                 break;
             }
             let mut x = code;
@@ -1548,7 +1619,7 @@ fn overlap_exhaustive(ctx: &mut Ctx) {
                 }
                 items.push((ts, pool[it].clone()));
             }
-            let input = Input { width, slide: Some(slide), rep, iso: false, named_stream: false, a_keyword: false, patterns: patterns.clone(), rules: rules.clone(), items, use_stop: true, preparse: false };
+            let input = Input { width, slide: Some(slide), rep, iso: false, named_stream: false, foreign: vec![], feed_name: ":s1", sparql_rules: false, standard_exec: false, a_keyword: false, patterns: patterns.clone(), rules: rules.clone(), items, use_stop: true, preparse: false };
             let plan = Plan { schedules: if code % 9 == 4 { 2 } else { 0 }, shrink: true };
             let ch = check_input(ctx, &input, &plan, &mut sr, vname);
             done += 1;
@@ -1556,15 +1627,15 @@ fn overlap_exhaustive(ctx: &mut Ctx) {
                 return;
             }
         }
-        ctx.count("overlap_exhaustive.streams_enumerated", done);
-        if done as usize == n_streams {
-            ctx.count("overlap_exhaustive.blocks_completed", 1);
+        ctx.count(&format!("{}.streams_enumerated", name), done as u64);
+        if done == n_streams {
+            ctx.count(&format!("{}.blocks_completed", name), 1);
         }
     }
 }
 
 fn random(ctx: &mut Ctx) {
-    let total = ctx.by_tier(400, 6_000);
+    let total = ctx.by_tier(800, 6_000);
     let schedules = ctx.by_tier(7usize, 170usize); // per operator: 3 x 7 = 21 / 3 x 170 = 510 schedules per input
     ctx.phase("random", total);
     while let Some(k) = ctx.next_case() {
@@ -1581,14 +1652,13 @@ fn random(ctx: &mut Ctx) {
 
 fn run(ctx: &mut Ctx) {
     scripted(ctx);
-    if ctx.within(0.9) {
-        overlap_exhaustive_guarded(ctx);
+    if ctx.thorough() {
+        overlap_exhaustive(ctx, "overlap_exhaustive", 5, false, 0.45);
+    } else {
+        overlap_exhaustive(ctx, "overlap_exhaustive", 3, false, 0.35);
+        overlap_exhaustive(ctx, "overlap_exhaustive_len4", 4, true, 0.6);
     }
     random(ctx);
-}
-
-fn overlap_exhaustive_guarded(ctx: &mut Ctx) {
-    overlap_exhaustive(ctx);
 }
 
 fn main() {
